@@ -156,7 +156,7 @@ func execFeedRun(base *world.World, script []runCycle, tag string, seed int64) (
 				return nil, fmt.Errorf("third party could not move the witness: %v", err)
 			}
 		}
-		sub := w.Concretise("l1", world.Req{Auth: "good", B: 0, N: c.N, Pf: world.Pf{K: "empty"}}, nil)
+		sub := w.Concretise("l1", world.Req{Auth: "good", B: 0, N: c.N, Extra: cycle % 3, Ext: (cycle / 2) % 2, Pf: world.Pf{K: "empty"}}, nil)
 		stubs.mu.Lock()
 		stubs.sc = feedScen{Sub: feedSub{Auth: "good", B: 0, N: c.N}}
 		stubs.cp = sub.CP
